@@ -158,6 +158,9 @@ def replay_builder_vs_quad(model, dry="dry gas", pmax=45):
     if abs(m["H2S"] - m["CO2"]) < 0.05:
         m["H2S"], m["CO2"] = 0.15, 0.01
     gv = {"N2": m["N2"], "H2S": m["H2S"], "CO2": m["CO2"], "Gas Specific Gravity": m["sg"], "Reservoir Temperature (deg F)": m["T"]}
+    # the table for the other gas type is built first, as the symbolic run does (dry then wet): whatever the builder keeps
+    # between calls must not leak into this one
+    rf.build_pvt_gas(dict(gv), "wet gas" if dry == "dry gas" else "dry gas", 3000.0)
     df = rf.build_pvt_gas(gv, dry, 3000.0)
     tpc, ppc = rg.pseudocritical_point_Sutton(m["sg"], rg.make_nonhydrocarbon_properties(m["N2"], m["H2S"], m["CO2"]), dry)
     p = np.asarray(df["pressure"], float)
@@ -195,20 +198,21 @@ def job_builder(job, pmax):
     job.bound(maximum_pressure=pmax)
     vs, dom = box(None, N2=(0, "0.2"), H2S=(0, "0.2"), CO2=(0, "0.2"), sg=("0.55", "1.2"), T=(60, 400))
     gv = {"N2": vs["N2"], "H2S": vs["H2S"], "CO2": vs["CO2"], "Gas Specific Gravity": vs["sg"], "Reservoir Temperature (deg F)": vs["T"]}
-    for dry in ("dry gas", "wet gas"):
+    for di, dry in enumerate(("dry gas", "wet gas", "dry gas")):       # the third build follows one for the other gas type with the same inputs
+        dtag = dry + (", after a wet-gas build with the same inputs" if di == 2 else "")
         res = paths(job, lambda: mod.build_pvt_gas(gv, dry, Q(pmax)), dom, max_paths=64)
         for k, pr in enumerate(res):
             if pr.exc is not None:
-                job.errors.append(f"build_pvt_gas[{dry}] path {k} raised {pr.exc!r}")
+                job.errors.append(f"build_pvt_gas[{dtag}] path {k} raised {pr.exc!r}")
                 continue
             df = pr.value
             p, mu, z, pp = df["pressure"].d, df["viscosity"].d, df["z-factor"].d, df["pseudopressure"].d
             n = len(p)
             alt = mod.pseudopressure(df["pressure"], df["viscosity"], df["z-factor"]).d
-            job.prove(f"builder[{dry}]/table route == stand-alone transform[path{k}]",
+            job.prove(f"builder[{dtag}]/table route == stand-alone transform[path{k}]",
                       pr.pc + [T.b_or(*[not_close(a, b, abs_tol=Fraction(0)) for a, b in zip(pp, alt)])], bound=f"{n} rows",
                       replay=(replay_builder, {"dry": dry, "pmax": pmax}))
-            job.prove(f"builder[{dry}]/first row 0, strictly increasing[path{k}]",
+            job.prove(f"builder[{dtag}]/first row 0, strictly increasing[path{k}]",
                       pr.pc + [T.b_or(T.b_not(T.b_eq0(P(pp[0]))), *[T.b_le(P(pp[j + 1]), P(pp[j])) for j in range(n - 1)])], bound=f"{n} rows",
                       replay=(replay_builder, {"dry": dry, "pmax": pmax}))
             # the columns the table integrates are the quadrature route's integrand for the *caller's* gas: viscosity_Sutton and
@@ -218,9 +222,9 @@ def job_builder(job, pmax):
             for j in range(n):
                 same.append(T.b_eq(P(mu[j]), P(ufs["viscosity_Sutton"](vs["T"], p[j], tpc, ppc, vs["sg"]))))
                 same.append(T.b_eq(P(z[j]), P(ufs["z_factor_DAK"](vs["T"], p[j], tpc, ppc))))
-            job.prove(f"builder[{dry}]/integrand columns are viscosity_Sutton and z_factor_DAK at the Sutton point of the caller's composition[path{k}]",
+            job.prove(f"builder[{dtag}]/integrand columns are viscosity_Sutton and z_factor_DAK at the Sutton point of the caller's composition[path{k}]",
                       pr.pc + [T.b_not(T.b_and(*same))], bound=f"{n} rows", replay=(replay_builder_vs_quad, {"dry": dry, "pmax": pmax}))
-            job.prove(f"builder[{dry}]/reach[path{k}]", pr.pc, expect="sat")
+            job.prove(f"builder[{dtag}]/reach[path{k}]", pr.pc, expect="sat")
 
 
 def jobs(tier):
